@@ -32,6 +32,9 @@ def scan_src(root):
                         layouts[(m.group(1), mm.group(1))] = [x.split(':')[0].strip() for x in split_top(mm.group(3)) if ':' in x]
                 layouts[('__enum__', m.group(1))] = vs
 scan_src('/tmp/probe/slice/nsym/src')
+for ty, vs in (('SeekFrom', ['Start', 'End', 'Current']), ('ControlFlow', ['Continue', 'Break']), ('Ordering', ['Less', 'Equal', 'Greater']), ('Poll', ['Ready', 'Pending'])):
+    layouts[('__enum__', ty)] = vs
+    for v_ in vs: layouts['__variants__'].add((ty, v_))
 ip = Interp(fns, layouts)
 ip.pathcache = {}
 for m in re.finditer(r'^const (\S+): [^=]+ = const (.+);$', text, re.M):
@@ -42,8 +45,13 @@ def static_owner(n):
     return None
 # spike: map static names via MIR text: "<NAME as Deref>::deref::__static_ref_initialize" appears in callers
 owner = {}
-for m in re.finditer(r'^fn (\S+<impl at [^\n]*?>::deref::__stability)\(\)[^\n]*\n(?:.*\n)*?.*?<(\w+) as Deref>::deref::__static_ref_initialize', text, re.M):
-    owner[m.group(1).replace('__stability', '__static_ref_initialize')] = m.group(2)
+cur_static = None
+for n, f in fns.items():
+    base = n.split('#')[0]
+    if base.endswith('::deref') and f.params and re.match(r'_1: &[A-Z_0-9]+$', f.params[0].strip()):
+        cur_static = f.params[0].strip()[5:]
+    elif base.endswith('::deref::__static_ref_initialize') and cur_static:
+        owner[n] = cur_static
 ip.static_owner = lambda n: owner.get(n)
 ip.alloc_static = {}
 for crate, txt in (('nsym', text), ('vstd', open('/tmp/probe/vstd.mir').read()), ('futures', open('/tmp/probe/futures.mir').read())):
@@ -51,7 +59,7 @@ for crate, txt in (('nsym', text), ('vstd', open('/tmp/probe/vstd.mir').read()),
         nm = m.group(2).strip(); full = ('vstd::' + nm) if crate == 'vstd' else nm
         cands = [n for n in fns if n == full or n.endswith('::' + nm)]
         ip.alloc_static[(crate, m.group(1))] = ([n for n in cands if n.startswith('vstd::') == (crate == 'vstd')] or cands or [full])[0]
-models.install(ip); models.install2(ip); models.install3(ip); models.install4(ip); models.install5(ip); models.install6(ip); models.install7(ip); models.install8(ip); models.install9(ip)
+models.install(ip); models.install2(ip); models.install3(ip); models.install4(ip); models.install5(ip); models.install6(ip); models.install7(ip); models.install8(ip); models.install9(ip); models.install10(ip); models.install11(ip)
 import threads, threading
 threading.stack_size(256*1024*1024); sys.setrecursionlimit(100000)
 threads.install(ip)
